@@ -146,6 +146,7 @@ def strategy(tier: str):
     general = st.fixed_dictionaries({'socks': st.sampled_from(['v4', 'v4', 'dual']), 'seed': st.integers(0, 10**6),
                                      'canary_junk': st.sampled_from([None, 200, 500, 900]),
                                      'find': st.sampled_from([None, None, None, 5, 60]),
+                                     'poll_gap': st.sampled_from([None, None, 400, 600, 600, 999]),
                                      'stream': st.lists(item(), min_size=1, max_size=40 if tier == 'thorough' else 25)})
     return st.integers(0, 11).flatmap(lambda k: _cut_announcement_case(tier) if k == 0 else _enumeration_case(tier) if k == 1
                                       else _tc_burst_case(tier) if k == 2 else general)
@@ -391,6 +392,28 @@ class Exec:
             n0b = len(w.net.trace)
             ep.proto.datagram_received(rp.build_query([(OWN['name'], 33, False)], [], qid=7), src)
             self.canary['legacy_again'].append([e for e in w.net.trace[n0b:] if e['port'] == 45000])
+        # a poller that repeats itself faster than once a second: a copy may be taken for a link-layer duplicate of the copy that was
+        # *handled* less than a second earlier - but not of one that was itself dropped; so a copy arriving a second or more after the
+        # last answered one has to be answered (what this stream of identical datagrams must not do is silence the instance)
+        pg = case.get('poll_gap')
+        self.canary['poll'] = []
+        if pg:
+            await asyncio.sleep(1.2)
+            psrc = ('10.0.0.204', 45001) if ep.sock.family != 10 else ('::ffff:10.0.0.204', 45001, 0, 2)
+            pq = rp.build_query([(OWN['name'], 33, False)], [], qid=9)
+            last_answered = None
+            for i in range(6):
+                if i:
+                    await asyncio.sleep(pg / 1000.0)
+                n0p = len(w.net.trace)
+                t_ = w.clock.t
+                ep.proto.datagram_received(pq, psrc)
+                got = any((m := sim.decode_trace_entry(e)) and m['id'] == 9 and any(r['type'] == 33 for r in m['an'])
+                          for e in w.net.trace[n0p:] if e['port'] == 45001)
+                due = last_answered is None or t_ - last_answered >= 1.0
+                self.canary['poll'].append({'i': i, 't_ms': round(t_ * 1000), 'answered': got, 'due': due})
+                if got:
+                    last_answered = t_
         src2 = ('10.0.0.201', 5353) if ep.sock.family != 10 else ('::ffff:10.0.0.201', 5353, 0, 2)
         await asyncio.sleep(1.2)
         await junk_then_wait()
@@ -446,6 +469,27 @@ class Exec:
             self.canary['refreshed_lookup'] = await AsyncServiceInfo(TYPE_B, cname).async_request(v.zc, 300)
         except BaseException as e:  # noqa
             self.canary['refreshed_lookup'] = repr(e)
+        # a peer that repeats one announcement faster than once a second (identical bytes, nothing of ours in between: it asks for
+        # nothing): copies may be dropped as duplicates of the copy *handled* less than a second before, so of any two consecutive
+        # copies 600-999 ms apart one is handled, and the 2 s SRV record is still usable half a second after the last copy
+        self.canary['repeater_lookup'] = None
+        if pg:
+            rname = 'canary3.' + TYPE_B
+            ann3 = wire.encode({'id': 0, 'flags': 0x8400, 'qd': [], 'an': [
+                rp.wire_rr_of_ident(('PTR', TYPE_B, rname), 4500),
+                rp.wire_rr_of_ident(('SRV', rname, 0, 0, 99, 'canary3host.local.'), 2, flush=True),
+                rp.wire_rr_of_ident(('TXT', rname, '00'), 4500, flush=True),
+                rp.wire_rr_of_ident(('A', 'canary3host.local.', '0a09090a'), 120, flush=True)], 'ns': [], 'ar': []})
+            await asyncio.sleep(1.5)
+            for i in range(4200 // pg + 2):
+                if i:
+                    await asyncio.sleep(pg / 1000.0)
+                ep.proto.datagram_received(ann3, src3)
+            await asyncio.sleep(0.5)
+            try:
+                self.canary['repeater_lookup'] = await AsyncServiceInfo(TYPE_B, rname).async_request(v.zc, 300)
+            except BaseException as e:  # noqa
+                self.canary['repeater_lookup'] = repr(e)
         await asyncio.sleep(11.0)
         # everything armed by the stream has fired by now (refresh schedules run at 75-95 % of up to 4500 s)
         await asyncio.sleep(4600.0)
@@ -485,6 +529,11 @@ def check(case: Dict[str, Any]) -> Dict[str, Any]:
         raise Violation('the same well-formed legacy query, repeated more than a second later, is no longer answered',
                         {'replies': [len(es) for es in ex.canary['legacy_again']], 'unparsable_datagram_ms_before': case.get('canary_junk')},
                         tag='canary-legacy-repeat')
+    missed = [x for x in ex.canary.get('poll', []) if x['due'] and not x['answered']]
+    if missed:
+        raise Violation('a poller repeats one well-formed legacy query faster than once a second: a copy that arrived a second or more '
+                        'after the last answered copy was not answered', {'poll_gap_ms': case.get('poll_gap'), 'copies': ex.canary['poll']},
+                        tag='canary-poller-silenced')
     qm_ok = False
     for e in ex.canary['qm']:
         m = sim.decode_trace_entry(e)
@@ -500,6 +549,11 @@ def check(case: Dict[str, Any]) -> Dict[str, Any]:
                         'cache (a lookup that needs the refreshed 2 s SRV record fails)',
                         {'lookup': ex.canary.get('refreshed_lookup'), 'unparsable_datagram_ms_before_second_copy': case.get('canary_junk')},
                         tag='canary-repeat-not-processed')
+    if ex.canary.get('repeater_lookup') not in (None, True):
+        raise Violation('a peer repeated one announcement faster than once a second for more than four seconds: the copies that came a '
+                        'second or more after the last handled copy were not handled (its 2 s SRV record is gone half a second after '
+                        'the last copy)', {'lookup': ex.canary.get('repeater_lookup'), 'gap_ms': case.get('poll_gap')},
+                        tag='canary-repeater-silenced')
     if ex.canary.get('reannounced_missing'):
         raise Violation('an instance the stream had mentioned was announced again (well-formed, alone) after the stream and the browser '
                         'does not report it', {'instances': ex.canary['reannounced_missing'],
@@ -524,6 +578,8 @@ def check(case: Dict[str, Any]) -> Dict[str, Any]:
     if getattr(ex, 'finder_state', None) not in (None, 'ok'):
         raise Violation('the type enumeration the application was running (AsyncZeroconfServiceTypes.async_find) died or hung',
                         {'state': ex.finder_state}, tag='finder-' + str(ex.finder_state)[:40])
+    if case.get('poll_gap'):
+        classes.append('poller-repeating-itself-faster-than-once-a-second')
     if case.get('find'):
         classes.append('type-enumeration-running-during-the-stream')
     if ex.canary.get('reannounce_judged'):
